@@ -7,9 +7,206 @@ package operationparser
 // ---- C05: the same effective window is computed at intake ----
 //
 //@ spec pEffUntil(from int64, until int64, delta uint64) Z { cond(from != 0 && until == 0, from + delta, until) }
-//@ spec pSaneWindow(from int64, until int64, delta uint64) bool {
-//@     0 <= from && from < 4611686018427387904 && 0 <= until && until < 4611686018427387904 && delta < 4611686018427387904 }
+//@ spec pBig() Z { 4611686018427387904 }
 //
 //@ func (*Parser).getAnchorUntil
-//@   requires p != nil && pSaneWindow(from, until, p.MaxOperationTimeDelta)
-//@   ensures  result == pEffUntil(from, until, p.MaxOperationTimeDelta)
+//@   requires p != nil && p.MaxOperationTimeDelta < pBig()
+//@   ensures  from < pBig() ==> result == pEffUntil(from, until, p.MaxOperationTimeDelta)
+//
+//@ ghost tvCalls int
+//@ ghost tvFrom int64
+//@ ghost tvUntil int64
+//@ iface TimeValidator.Validate
+//@   modifies tvCalls, tvFrom, tvUntil
+//@   ensures tvCalls == old(tvCalls) + 1 && tvFrom == from && tvUntil == until
+//@ iface ObjectValidator.Validate
+//
+// ---- C10: every limit is inclusive, exact at its boundary and governed only by its own parameter ----
+//
+//@ spec cfgOK(p *Parser) bool { p != nil && p.anchorOriginValidator != nil && p.anchorTimeValidator != nil &&
+//@     p.MaxOperationHashLength < pBig() && p.MaxDeltaSize < pBig() && p.MaxOperationSize < pBig() && p.NonceSize < pBig() && p.MaxOperationTimeDelta < pBig() }
+//
+//@ func (*Parser).validateMultihash
+//@   requires cfgOK(p)
+//@   ensures (result == nil) == (len(mh) <= p.MaxOperationHashLength && computedWith(mh, p.MultihashAlgorithms))
+//
+//@ func (*Parser).validateDeltaSize
+//@   requires cfgOK(p)
+//@   ensures (result == nil) == (jcsOK(boxed(delta)) && len(jcs(boxed(delta))) <= p.MaxDeltaSize)
+//
+//@ func (*Parser).isPatchEnabled
+//@   requires p != nil
+//@   loop 1
+//@     invariant forall q int :: 0 <= q && q < _k ==> p.Patches[q] != string(action)
+//@   ensures result == (exists q int :: 0 <= q && q < len(p.Patches) && p.Patches[q] == string(action))
+//
+//@ func (*Parser).validateNonce
+//@   requires cfgOK(p)
+//@   ensures (result == nil) == (nonce == "" || (b64ok(nonce) && len(b64dec(nonce)) == p.NonceSize))
+//
+//@ func contains
+//@   loop 1
+//@     invariant forall q int :: 0 <= q && q < _k ==> values[q] != value
+//@   ensures result == (exists q int :: 0 <= q && q < len(values) && values[q] == value)
+//
+//@ func (*Parser).validateSigningKey
+//@   requires cfgOK(p)
+//@   ensures result == nil ==> key != nil && key.Crv != "" && key.Kty != "" && key.X != ""
+//@   ensures result == nil ==> (exists q int :: 0 <= q && q < len(p.KeyAlgorithms) && p.KeyAlgorithms[q] == key.Crv)
+//@   ensures result == nil ==> (key.Nonce == "" || (b64ok(key.Nonce) && len(b64dec(key.Nonce)) == p.NonceSize))
+//
+//@ func (*Parser).validateProtectedHeaders
+//@   loop 1
+//@     invariant forall k string :: visited(headers, k) ==> k == "alg" || k == "kid"
+//@   ensures result == nil ==> headers != nil && "alg" in headers && isType(headers["alg"], "string") && unbox(headers["alg"], "string") != ""
+//@   ensures result == nil ==> (exists q int :: 0 <= q && q < len(allowedAlgorithms) && allowedAlgorithms[q] == unbox(headers["alg"], "string"))
+//@   ensures result == nil ==> (forall k string :: k in headers ==> k == "alg" || k == "kid")
+//
+// ---- C12: no accepted request re-commits to the key it reveals ----
+//
+//@ func (*Parser).validateCommitment
+//@   ensures (result == nil) == (mhCodeOK(nextCommitment) && commitOK(jwk, uint(mhCodeOf(nextCommitment))) && commitOf(jwk, uint(mhCodeOf(nextCommitment))) != nextCommitment)
+//
+//@ func (*Parser).ValidateSuffixData
+//@   requires cfgOK(p)
+//@   ensures (result == nil) == (suffixData != nil && len(suffixData.RecoveryCommitment) <= p.MaxOperationHashLength && computedWith(suffixData.RecoveryCommitment, p.MultihashAlgorithms) && len(suffixData.DeltaHash) <= p.MaxOperationHashLength && computedWith(suffixData.DeltaHash, p.MultihashAlgorithms))
+//
+//@ spec patchValid(pt patch.Patch) bool
+//@ spec actionOK(pt patch.Patch) bool
+//@ spec actionOf(pt patch.Patch) patch.Action
+//@ func (*Parser).ValidateDelta
+//@   requires cfgOK(p)
+//@   loop 1
+//@     invariant forall q int :: 0 <= q && q < _k ==> actionOK(delta.Patches[q]) && (exists e int :: 0 <= e && e < len(p.Patches) && p.Patches[e] == string(actionOf(delta.Patches[q]))) && patchValid(delta.Patches[q])
+//@   ensures result == nil ==> delta != nil && len(delta.Patches) > 0
+//@   ensures result == nil ==> (forall q int :: 0 <= q && q < len(delta.Patches) ==> actionOK(delta.Patches[q]) && (exists e int :: 0 <= e && e < len(p.Patches) && p.Patches[e] == string(actionOf(delta.Patches[q]))) && patchValid(delta.Patches[q]))
+//@   ensures result == nil ==> len(delta.UpdateCommitment) <= p.MaxOperationHashLength && computedWith(delta.UpdateCommitment, p.MultihashAlgorithms)
+//@   ensures result == nil ==> jcsOK(boxed(delta)) && len(jcs(boxed(delta))) <= p.MaxDeltaSize
+//
+// ---- signed data (C10, and the parser side of C01/C05): what the applier's interface contract assumes ----
+//
+//@ func (*Parser).parseSignedData
+//@   requires cfgOK(p)
+//@   results sig, err
+//@   ensures err == nil ==> sig != nil && compactJWS != "" && jwsOK(compactJWS) && sig.Payload == jwsPayload(compactJWS) && sig.ProtectedHeaders == jwsHeaders(compactJWS)
+//@   ensures err == nil ==> "alg" in jwsHeaders(compactJWS) && isType(jwsHeaders(compactJWS)["alg"], "string") && (exists q int :: 0 <= q && q < len(p.SignatureAlgorithms) && p.SignatureAlgorithms[q] == unbox(jwsHeaders(compactJWS)["alg"], "string"))
+//@   ensures err == nil ==> (forall k string :: k in jwsHeaders(compactJWS) ==> k == "alg" || k == "kid")
+//
+//@ func (*Parser).ParseSignedDataForUpdate
+//@   requires cfgOK(p)
+//@   results m, err
+//@   ensures err == nil ==> m != nil && fresh(m) && m.UpdateKey == updKey(compactJWS) && m.UpdateKey != nil && m.DeltaHash == updDeltaHash(compactJWS) && m.AnchorFrom == updFrom(compactJWS) && m.AnchorUntil == updUntil(compactJWS)
+//@   ensures err == nil ==> len(m.DeltaHash) <= p.MaxOperationHashLength && computedWith(m.DeltaHash, p.MultihashAlgorithms)
+//
+//@ func (*Parser).ParseSignedDataForRecover
+//@   requires cfgOK(p)
+//@   results m, err
+//@   ensures err == nil ==> m != nil && fresh(m) && m.RecoveryKey == recKey(compactJWS) && m.RecoveryKey != nil && m.DeltaHash == recDeltaHash(compactJWS) && m.RecoveryCommitment == recCommit(compactJWS) && m.AnchorOrigin == recOrigin(compactJWS) && m.AnchorFrom == recFrom(compactJWS) && m.AnchorUntil == recUntil(compactJWS)
+//@   ensures err == nil ==> len(m.DeltaHash) <= p.MaxOperationHashLength && computedWith(m.DeltaHash, p.MultihashAlgorithms) && len(m.RecoveryCommitment) <= p.MaxOperationHashLength && computedWith(m.RecoveryCommitment, p.MultihashAlgorithms)
+//@   ensures err == nil ==> mhCodeOK(m.RecoveryCommitment) && commitOf(m.RecoveryKey, uint(mhCodeOf(m.RecoveryCommitment))) != m.RecoveryCommitment
+//
+//@ func (*Parser).ParseSignedDataForDeactivate
+//@   requires cfgOK(p)
+//@   results m, err
+//@   ensures err == nil ==> m != nil && fresh(m) && m.RecoveryKey == deaKey(compactJWS) && m.RecoveryKey != nil && m.DidSuffix == deaSuffix(compactJWS) && m.AnchorFrom == deaFrom(compactJWS) && m.AnchorUntil == deaUntil(compactJWS)
+//
+// ---- operation requests ----
+//
+//@ func (*Parser).validateUpdateRequest
+//@   requires cfgOK(p) && update != nil
+//@   ensures (result == nil) == (update.DidSuffix != "" && update.SignedData != "" && len(update.RevealValue) <= p.MaxOperationHashLength && computedWith(update.RevealValue, p.MultihashAlgorithms))
+//@ func (*Parser).validateRecoverRequest
+//@   requires cfgOK(p) && req != nil
+//@   ensures (result == nil) == (req.DidSuffix != "" && req.SignedData != "" && len(req.RevealValue) <= p.MaxOperationHashLength && computedWith(req.RevealValue, p.MultihashAlgorithms))
+//@ func (*Parser).validateDeactivateRequest
+//@   requires cfgOK(p) && req != nil
+//@   ensures (result == nil) == (req.DidSuffix != "" && req.SignedData != "" && len(req.RevealValue) <= p.MaxOperationHashLength && computedWith(req.RevealValue, p.MultihashAlgorithms))
+//
+//@ func (*Parser).parseUpdateRequest
+//@   requires cfgOK(p)
+//@   results r, err
+//@   ensures err == nil ==> r != nil && fresh(r) && r.SignedData == reqSD(payload) && r.RevealValue == reqReveal(payload) && r.DidSuffix == reqSuffix(payload) && r.Delta == reqDelta(payload)
+//@   ensures err == nil ==> r.DidSuffix != "" && r.SignedData != "" && len(r.RevealValue) <= p.MaxOperationHashLength && computedWith(r.RevealValue, p.MultihashAlgorithms)
+//@ func (*Parser).parseRecoverRequest
+//@   requires cfgOK(p)
+//@   results r, err
+//@   ensures err == nil ==> r != nil && fresh(r) && r.SignedData == reqSD(payload) && r.RevealValue == reqReveal(payload) && r.DidSuffix == reqSuffix(payload) && r.Delta == reqDelta(payload)
+//@   ensures err == nil ==> r.DidSuffix != "" && r.SignedData != "" && len(r.RevealValue) <= p.MaxOperationHashLength && computedWith(r.RevealValue, p.MultihashAlgorithms)
+//@ func (*Parser).parseDeactivateRequest
+//@   requires cfgOK(p)
+//@   results r, err
+//@   ensures err == nil ==> r != nil && fresh(r) && r.SignedData == reqSD(payload) && r.RevealValue == reqReveal(payload) && r.DidSuffix == reqSuffix(payload)
+//@   ensures err == nil ==> r.DidSuffix != "" && r.SignedData != "" && len(r.RevealValue) <= p.MaxOperationHashLength && computedWith(r.RevealValue, p.MultihashAlgorithms)
+//@ func (*Parser).parseCreateRequest
+//@   results r, err
+//@   ensures err == nil ==> r != nil && fresh(r) && r.SuffixData == reqSuffixData(payload) && r.Delta == reqDelta(payload)
+//
+//@ func (*Parser).validateSignedDataForUpdate
+//@   requires cfgOK(p) && signedData != nil
+//@   ensures result == nil ==> signedData.UpdateKey != nil && len(signedData.DeltaHash) <= p.MaxOperationHashLength && computedWith(signedData.DeltaHash, p.MultihashAlgorithms)
+//@ func (*Parser).validateSignedDataForRecovery
+//@   requires cfgOK(p) && signedData != nil
+//@   ensures result == nil ==> signedData.RecoveryKey != nil && len(signedData.DeltaHash) <= p.MaxOperationHashLength && computedWith(signedData.DeltaHash, p.MultihashAlgorithms) && len(signedData.RecoveryCommitment) <= p.MaxOperationHashLength && computedWith(signedData.RecoveryCommitment, p.MultihashAlgorithms)
+//@   ensures result == nil ==> mhCodeOK(signedData.RecoveryCommitment) && commitOf(signedData.RecoveryKey, uint(mhCodeOf(signedData.RecoveryCommitment))) != signedData.RecoveryCommitment
+//
+//@ func (*Parser).ParseUpdateOperation
+//@   requires cfgOK(p)
+//@   results op, err
+//@   ensures err == nil ==> op != nil && fresh(op) && op.SignedData == reqSD(request) && op.Delta == reqDelta(request) && op.RevealValue == reqReveal(request) && op.UniqueSuffix == reqSuffix(request) && op.Type == operation.TypeUpdate
+//@   ensures err == nil ==> validMH(boxed(updKey(reqSD(request))), reqReveal(request))
+//@   ensures err == nil ==> len(reqReveal(request)) <= p.MaxOperationHashLength && computedWith(reqReveal(request), p.MultihashAlgorithms) && reqSuffix(request) != ""
+//@   ensures err == nil && !batch ==> tvCalls == old(tvCalls) + 1 && tvFrom == updFrom(reqSD(request)) && (updFrom(reqSD(request)) < pBig() ==> tvUntil == pEffUntil(updFrom(reqSD(request)), updUntil(reqSD(request)), p.MaxOperationTimeDelta))
+//@   ensures batch ==> tvCalls == old(tvCalls)
+//@   ensures err == nil && !batch ==> reqDelta(request) != nil && mhCodeOK(reqDelta(request).UpdateCommitment) && commitOf(updKey(reqSD(request)), uint(mhCodeOf(reqDelta(request).UpdateCommitment))) != reqDelta(request).UpdateCommitment
+//@   modifies tvCalls, tvFrom, tvUntil
+//
+//@ func (*Parser).ParseRecoverOperation
+//@   requires cfgOK(p)
+//@   results op, err
+//@   ensures err == nil ==> op != nil && fresh(op) && op.SignedData == reqSD(request) && op.Delta == reqDelta(request) && op.RevealValue == reqReveal(request) && op.UniqueSuffix == reqSuffix(request) && op.Type == operation.TypeRecover
+//@   ensures err == nil ==> validMH(boxed(recKey(reqSD(request))), reqReveal(request))
+//@   ensures err == nil ==> len(reqReveal(request)) <= p.MaxOperationHashLength && computedWith(reqReveal(request), p.MultihashAlgorithms) && reqSuffix(request) != ""
+//@   ensures err == nil && !batch ==> tvCalls == old(tvCalls) + 1 && tvFrom == recFrom(reqSD(request)) && (recFrom(reqSD(request)) < pBig() ==> tvUntil == pEffUntil(recFrom(reqSD(request)), recUntil(reqSD(request)), p.MaxOperationTimeDelta))
+//@   ensures batch ==> tvCalls == old(tvCalls)
+//@   ensures err == nil && !batch ==> reqDelta(request) != nil && reqDelta(request).UpdateCommitment != recCommit(reqSD(request))
+//@   ensures err == nil ==> mhCodeOK(recCommit(reqSD(request))) && commitOf(recKey(reqSD(request)), uint(mhCodeOf(recCommit(reqSD(request))))) != recCommit(reqSD(request))
+//@   modifies tvCalls, tvFrom, tvUntil
+//
+//@ func (*Parser).ParseDeactivateOperation
+//@   requires cfgOK(p)
+//@   results op, err
+//@   ensures err == nil ==> op != nil && fresh(op) && op.SignedData == reqSD(request) && op.RevealValue == reqReveal(request) && op.UniqueSuffix == reqSuffix(request) && op.Type == operation.TypeDeactivate
+//@   ensures err == nil ==> validMH(boxed(deaKey(reqSD(request))), reqReveal(request)) && deaSuffix(reqSD(request)) == reqSuffix(request)
+//@   ensures err == nil && !batch ==> tvCalls == old(tvCalls) + 1 && tvFrom == deaFrom(reqSD(request)) && (deaFrom(reqSD(request)) < pBig() ==> tvUntil == pEffUntil(deaFrom(reqSD(request)), deaUntil(reqSD(request)), p.MaxOperationTimeDelta))
+//@   ensures batch ==> tvCalls == old(tvCalls)
+//@   modifies tvCalls, tvFrom, tvUntil
+//
+//@ func (*Parser).ParseCreateOperation
+//@   requires cfgOK(p)
+//@   results op, err
+//@   ensures err == nil ==> op != nil && fresh(op) && op.SuffixData == reqSuffixData(request) && op.SuffixData != nil && op.Delta == reqDelta(request) && op.Type == operation.TypeCreate
+//@   ensures err == nil ==> len(reqSuffixData(request).RecoveryCommitment) <= p.MaxOperationHashLength && computedWith(reqSuffixData(request).RecoveryCommitment, p.MultihashAlgorithms) && len(reqSuffixData(request).DeltaHash) <= p.MaxOperationHashLength && computedWith(reqSuffixData(request).DeltaHash, p.MultihashAlgorithms)
+//@   ensures err == nil && !batch ==> reqDelta(request) != nil && validMH(boxed(reqDelta(request)), reqSuffixData(request).DeltaHash) && reqDelta(request).UpdateCommitment != reqSuffixData(request).RecoveryCommitment
+//@   modifies tvCalls, tvFrom, tvUntil
+//
+//@ func (*Parser).ParseOperation
+//@   requires cfgOK(p)
+//@   results op, err
+//@   ensures err == nil ==> len(operationBuffer) <= p.MaxOperationSize && op != nil
+//@   ensures err == nil ==> (op.Type == operation.TypeCreate || op.Type == operation.TypeUpdate || op.Type == operation.TypeRecover || op.Type == operation.TypeDeactivate) && op.Type == reqType(operationBuffer)
+//@   ensures err == nil && op.Type == operation.TypeUpdate ==> op.Delta == reqDelta(operationBuffer) && op.SignedData == reqSD(operationBuffer)
+//@   ensures err == nil && op.Type == operation.TypeRecover ==> op.SignedData == reqSD(operationBuffer)
+//@   modifies tvCalls, tvFrom, tvUntil
+//
+//@ func (*Parser).Parse
+//@   requires cfgOK(p)
+//@   ensures err == nil ==> len(operationBuffer) <= p.MaxOperationSize && r0 != nil
+//@   modifies tvCalls, tvFrom, tvUntil
+//
+// "never a panic": GetCommitment / GetRevealValue on arbitrary bytes (zero-annotation safety obligations)
+//@ func (*Parser).GetCommitment
+//@   requires cfgOK(p)
+//@   modifies tvCalls, tvFrom, tvUntil
+//@ func (*Parser).GetRevealValue
+//@   requires cfgOK(p)
+//@   modifies tvCalls, tvFrom, tvUntil
